@@ -64,7 +64,8 @@ def validate(spec_dir, module, cfg, chunks, workdir, timeout=900, max_fail=6, he
                 idx = i
         eid, lines = todo[idx]
         local = rej - 1 - starts[idx]
-        cl = re.findall(r'<<"CLAUSE-FAILED", "([^"]+)", (\d+)>>', r.out)
+        # (TLC wraps long tuples over several lines when it prints them)
+        cl = re.findall(r'<<\s*"CLAUSE-FAILED",\s*"([^"]+)",\s*(\d+)\s*>>', r.out)
         clause = next((c for c, ln in cl if int(ln) == rej), None)
         failures.append(Failure(eid, local + 1, lines[local] if local < len(lines) else "",
                                 lines[local - 1] if local > 0 else "", clause))
